@@ -184,6 +184,7 @@ func runCase(c *core.Ctx, r *core.Result, stream string, i int, rng *rand.Rand, 
 		return
 	}
 	// history
+	holes := false
 	n := rng.Intn(41)
 	for k := 0; k < n && l.Snap().LoggedOn; k++ {
 		switch x := rng.Intn(12); {
@@ -193,6 +194,11 @@ func runCase(c *core.Ctx, r *core.Result, stream string, i int, rng *rand.Rand, 
 			if l.Send(m) == nil {
 				classes[seq] = cls
 			}
+		case x == 6 && rng.Intn(3) == 0:
+			// the operator moves the outbound counter forward: the numbers in between are never used, a replay must
+			// gap-fill across them
+			_ = quickfix.SetNextSenderMsgSeqNum(l.SID, l.Snap().NextSender+2+rng.Intn(6))
+			holes = true
 		case x == 6:
 			l.Timeout(1) // NeedHeartbeat -> Heartbeat
 		case x == 7:
@@ -242,6 +248,9 @@ func runCase(c *core.Ctx, r *core.Result, stream string, i int, rng *rand.Rand, 
 	}
 	if !l.Snap().LoggedOn {
 		return
+	}
+	if holes {
+		r.Count("histories_with_unused_numbers", 1)
 	}
 	// originals: what the store holds (persisted bytes), or — with persistence off — the numbers only
 	harvest()
